@@ -177,7 +177,8 @@ PROPS["C14"] = {
                   "the proof and observed on the real binary.",
 }
 PROPS["C16"] = {
-    "theorems": ["C16_clone_effects", "C16_compress_effects", "C16_clone_source_touches_no_other_file"],
+    "theorems": ["C16_clone_effects", "C16_compress_effects", "C16_clone_source_touches_no_other_file",
+                 "C16_clone_trace_shape", "C16_compress_failed_no_temp"],
     "suites": ["clitrace", "clirt", "clirefuse"], "needs_cli": True,
     "rule": "strace -f of the real binary in all clone modes (plain, seed file, stdin seed, in place, http, verify) and compress "
             "modes (file, stdin, force): canonical list of paths opened with write/create/truncate, unlinked or renamed inside "
